@@ -4,10 +4,13 @@
 package rtpdump
 
 import (
+	"errors"
 	"fmt"
 	"io"
 	"sync"
 )
+
+var errSourceNotIPv4 = errors.New("rtpdump: source is not an IPv4 address")
 
 // Writer writes the RTPDump file format.
 type Writer struct {
@@ -18,9 +21,14 @@ type Writer struct {
 // NewWriter makes a new Writer and immediately writes the given Header
 // to begin the file.
 func NewWriter(w io.Writer, hdr Header) (*Writer, error) {
+	source := hdr.Source.To4()
+	if source == nil {
+		return nil, errSourceNotIPv4
+	}
+
 	preamble := fmt.Sprintf(
 		"#!rtpplay1.0 %s/%d\n",
-		hdr.Source.To4().String(),
+		source.String(),
 		hdr.Port)
 	if _, err := w.Write([]byte(preamble)); err != nil {
 		return nil, err
